@@ -618,7 +618,12 @@ impl CertSpec {
     pub fn certificate(&self) -> Result<Certificate, String> {
         let pm = self.protocol_message();
         let signature = match &self.sig {
-            SigSpec::Genesis(h) => CertificateSignature::GenesisSignature(GenesisEd25519Signature::try_from(h.as_str()).map_err(|e| format!("genesis signature: {e}"))?),
+            // 64 raw bytes are an Ed25519 signature whatever their value: decoded here without the key codec of the
+            // code under test, so that a codec which refuses some honest signatures cannot shrink the domain
+            SigSpec::Genesis(h) => CertificateSignature::GenesisSignature(match hex::decode(h).ok().and_then(|b| <[u8; 64]>::try_from(b).ok()) {
+                Some(raw) => GenesisEd25519Signature::new(ed25519_dalek::Signature::from_bytes(&raw)),
+                None => GenesisEd25519Signature::try_from(h.as_str()).map_err(|e| format!("genesis signature: {e}"))?,
+            }),
             SigSpec::Multi(e, h) => {
                 CertificateSignature::MultiSignature(e.entity(), ProtocolMultiSignature::try_from(h.as_str()).map_err(|e| format!("multi-signature: {e}"))?)
             }
